@@ -379,6 +379,79 @@ fn surplus_strategy(_t: Tier) -> BoxedStrategy<(ARecord, Vec<u8>, Bytes)> {
         .boxed()
 }
 
+/// a record whose last field is a name, with its RDATA ending right before that name (RDLENGTH and content both cut),
+/// followed by another record whose owner starts with a label: the bytes at the position of the missing name are
+/// the next record, so a reader that accepts the message and still reports the record under its type must not have
+/// found a name there that the bytes at that position do not spell
+fn check_in_cut(input: &(ARecord, u8), case: &mut Case) -> Result<(), Fail> {
+    let (rec, keep) = input;
+    let code = rec.rdata.code();
+    let ARData::Typed { fields, .. } = &rec.rdata else { return Ok(()) };
+    let Some(Val::Name(last)) = fields.last() else { return Ok(()) };
+    let name_wire: usize = last.0.iter().map(|l| l.0.len() + 1).sum::<usize>() + 1;
+    // keep 0 octets of the name, or (for names of more than one label) its first label only
+    let first_label = last.0.first().map(|l| l.0.len() + 1).unwrap_or(0);
+    let kept = if *keep % 2 == 1 && last.0.len() >= 2 { first_label } else { 0 };
+    let mut p = APacket { id: 1, flags: 0x8400, ..Default::default() };
+    p.answers.push(rec.clone());
+    let wire = encode_message(&p, &EncOpts::plain());
+    let Ok(w) = walk(&wire) else { return Ok(()) };
+    let Some(r0) = w.records.first() else { return Ok(()) };
+    if r0.end != wire.len() || r0.rdlen < name_wire {
+        return Ok(());
+    }
+    let cut = name_wire - kept;
+    let mut m = wire[..wire.len() - cut].to_vec();
+    let new_len = (r0.rdlen - cut) as u16;
+    m[r0.rdata_off - 2..r0.rdata_off].copy_from_slice(&new_len.to_be_bytes());
+    m[6..8].copy_from_slice(&2u16.to_be_bytes());
+    let name_pos = r0.rdata_off + r0.rdlen - name_wire;
+    // the next record: owner t.example, type A
+    m.extend_from_slice(&[1, b't', 7, b'e', b'x', b'a', b'm', b'p', b'l', b'e', 0, 0, 1, 0, 1, 0, 0, 0, 1, 0, 4, 127, 0, 0, 1]);
+    case.class(format!("type:{}", code));
+    case.nontrivial = true;
+    let Ok(pk) = parse(&m)? else {
+        case.class("cut-rejected");
+        return Ok(());
+    };
+    case.class("cut-accepted");
+    let Some(first) = pk.answers.first() else { return Ok(()) };
+    let o = lib("observe", || crate::bridge::observe_record(first))?;
+    let ARData::Typed { code: oc, fields: of } = &o.rdata else {
+        // kept as empty / opaque data of that type: no name was reported
+        case.class("cut-accepted-without-a-name:no-claim");
+        return Ok(());
+    };
+    if *oc != code {
+        return Ok(());
+    }
+    case.class("cut-accepted-with-a-name");
+    if let Some(Val::Name(got)) = of.last() {
+        // what an RFC 1035 decoder reads at the position where the name would start
+        let want = decode_name(&m, name_pos).ok().map(|d| d.aname());
+        ensure!(
+            want.as_ref() == Some(got),
+            "c06:in-packet-cut:invented-name",
+            "a type {} record whose RDATA ends {} octets into its last name was accepted and reports the name {:?}; the bytes at that position (offset {}) decode to {:?}; message {}",
+            code,
+            kept,
+            got.render(),
+            name_pos,
+            want.map(|n| n.render()),
+            hex(&m)
+        );
+    }
+    Ok(())
+}
+
+fn cut_strategy(_t: Tier) -> BoxedStrategy<(ARecord, u8)> {
+    let name_last: Vec<u16> = crate::gen::record_codes()
+        .into_iter()
+        .filter(|c| type_info(*c).map(|i| matches!(i.fields.last().map(|f| f.kind), Some(Kind::Name(_)))).unwrap_or(false))
+        .collect();
+    (proptest::sample::select(name_last).prop_flat_map(|c| crate::gen::arecord_with(crate::gen::typed_n(c, crate::gen::friendly_name()))), any::<u8>()).boxed()
+}
+
 /// a record whose embedded name (one of them, if the type has several) takes 256..=330 octets on the wire, written in
 /// full or reached through a pointer to a question name of that size: every reader of names must refuse it
 fn check_in_overlong(input: &(ARecord, u16, u8, bool), case: &mut Case) -> Result<(), Fail> {
@@ -588,6 +661,7 @@ pub fn def() -> CheckDef {
             Box::new(EnumSection { name: "chains", rule: "0..4000 strictly backward pointer hops onto names of 0..127 labels", enumerate: enum_chains, check: check_chain, exhaustive: true }),
             Box::new(EnumSection { name: "reserved-types", rule: "every octet 0x40..=0xBF as a label type with 0..260 bytes behind it", enumerate: enum_reserved, check: check_reserved, exhaustive: true }),
             Box::new(PropSection { name: "in-packet", rule: "names in question / owner / RDATA positions of every type", strategy: super::c10::parse_strategy, cases: (100_000, 1_500_000), check: check_in_packet }),
+            Box::new(PropSection { name: "in-packet-cut", rule: "RDATA ending right before (or one label into) its last name, another record behind it", strategy: cut_strategy, cases: (20_000, 200_000), check: check_in_cut }),
             Box::new(PropSection { name: "in-packet-surplus", rule: "names followed by fixed fields inside RDATA with surplus octets", strategy: surplus_strategy, cases: (60_000, 600_000), check: check_in_surplus }),
             Box::new(PropSection { name: "in-packet-overlong", rule: "names of 256..330 octets in every RDATA name position", strategy: overlong_strategy, cases: (40_000, 400_000), check: check_in_overlong }),
             Box::new(EnumSection { name: "in-packet-bad-names", rule: "names ending in bad pointers / reserved types in every position under several header words", enumerate: enum_bad_names, check: check_bad_name, exhaustive: true }),
